@@ -51,12 +51,16 @@ def specs(draw, tier):
     R = min(draw(st.floats(1.5, 4, **finite)) * dmax, 0.45 * size)
     w = draw(st.floats(0.5, 2, **finite)) * dmax
     spec["truth"] = {"position": [gen.r6(x) for x in centre], "radius": gen.r6(R), "interface_width": gen.r6(w)}
-    kind = draw(st.sampled_from(["clean", "clean", "noisy", "rescaled", "noise", "smooth", "self"]))
+    kind = draw(st.sampled_from(["clean", "clean", "noisy", "rescaled", "noise", "smooth", "self"] * 3 + ["constant", "constant"]))
     levels = [0.0, 1.0]
     if kind in ("rescaled",) or draw(st.integers(0, 3)) == 0:
         lo = gen.r6(draw(st.floats(-2, 2, **finite)))
         levels = [lo, gen.r6(lo + draw(st.floats(0.3, 3, **finite)))]
     spec["image"] = {"kind": kind, "seed": draw(st.integers(0, 2**31)), "sigma": draw(st.sampled_from([0.02, 0.1, 0.3])), "levels": levels}
+    if kind == "constant":  # an image without any contrast (ordinary decimal values as well as dyadic ones)
+        spec["image"]["value"] = draw(st.sampled_from([0.1, 0.2, 0.3, 0.7, 1 / 3, 0.0, 0.5, 1.0, 0.25]))
+    # an invalid pixel (not-a-number / infinite) far away from the candidate, i.e. outside the region that is fitted
+    spec["image"]["bad_pixel"] = draw(st.sampled_from([None] * 7 + ["nan", "inf", "-inf"]))
     # candidate
     if fam == "cart":
         classes = ["SphericalDroplet", "DiffuseDroplet", "DiffuseDroplet"] + (["PerturbedDroplet2D"] if dim == 2 else []) + (["PerturbedDroplet3D"] if dim == 3 else [])
@@ -104,6 +108,8 @@ def specs(draw, tier):
         cand["no_support"] = what
     spec["candidate"] = cand
     spec["opts"] = {"levels": draw(st.sampled_from(["fixed", "fixed", "auto", "adjust", "auto+adjust"])), "tolerance": draw(st.sampled_from([None, None, 1e-4, 1e-10]))}
+    if kind == "constant":  # fitted automatic levels are the delicate request for an image without contrast
+        spec["opts"]["levels"] = draw(st.sampled_from(["auto+adjust", "auto+adjust", "auto+adjust", "auto", "adjust", "fixed"]))
     # documented pass-through of solver options; a small evaluation budget makes the fit stop before it has converged
     spec["opts"]["max_nfev"] = draw(st.sampled_from([None, None, None, None, 1, 2, 3, 5, 8]))
     # the image may arrive in another numeric representation: single precision, 8-bit grey levels stored as integers, a boolean image
@@ -214,6 +220,8 @@ class C04(Property):
         elif kind == "smooth":
             idx = np.stack(np.meshgrid(*[np.arange(n) for n in data.shape], indexing="ij"), -1)
             data = vmin + (vmax - vmin) * (0.5 + 0.5 * np.cos((idx * rng.uniform(0.1, 0.9, idx.shape[-1])).sum(-1) + rng.uniform(0, 6)))
+        elif kind == "constant":
+            data = np.full(data.shape, vmin + (vmax - vmin) * im["value"])
         img_dt = im.get("dtype", "float64")
         if img_dt == "float32":
             field = ScalarField(grid, data.astype(np.float32), dtype=np.float32)
@@ -229,6 +237,18 @@ class C04(Property):
         if img_dt != "float64":
             ctx.cls(f"image-dtype:{img_dt}")
             data = np.array(field.data, float)  # what the oracles compare with: the values the field actually holds
+        bad = im.get("bad_pixel")
+        if bad and img_dt in ("float64", "float32"):
+            # one invalid pixel in the cell that is farthest from the candidate - provided it lies outside the fitted region (the
+            # candidate's cells enlarged by 1 + 2 w cells); the oracles keep working with the valid values (`data`)
+            c_tmp = cand if isinstance(cand, DiffuseDroplet) else DiffuseDroplet.from_droplet(cand)
+            w_tmp = c_tmp.interface_width if c_tmp.interface_width is not None else float(grid.typical_discretization)
+            region_tmp = ndimage.binary_dilation(np.asarray(c_tmp._get_phase_field(grid, dtype=bool)), iterations=3 + int(2 * w_tmp / float(grid.typical_discretization)))
+            free_cells = np.argwhere(~region_tmp)
+            if len(free_cells):
+                cell = tuple(free_cells[int(im["seed"]) % len(free_cells)])
+                field.data[cell] = {"nan": np.nan, "inf": np.inf, "-inf": -np.inf}[bad]
+                ctx.cls(f"invalid-pixel-outside-fit-region:{bad}")
         snap = field.data.tobytes()
         mode = spec["opts"]["levels"]
         kw = {}
